@@ -416,11 +416,11 @@ type c04Spec struct {
 }
 
 type c04Plan struct {
-	kind      *c04Kind
-	itemProbe bool
-	srcExpr   string
+	kind                    *c04Kind
+	itemProbe               bool
+	srcExpr                 string
 	pre, in, end, els, post []c04Spec
-	reloop    bool
+	reloop                  bool
 }
 
 type c04Prog struct {
@@ -1981,4 +1981,3 @@ func c04DataStr(data any) string {
 	}
 	return clip(string(raw), 900)
 }
-
